@@ -1521,6 +1521,15 @@ def _normalise_line(line: str) -> str:
     of optional spaces (``led . toggle ( )``, ``range (3)``, ``target ( "COM3" )``).
     """
 
+    stripped = line.strip()
+    for opener, keywords in (("if 0:\n    pass\n", ("elif", "else")), ("try:\n    pass\n", ("except", "finally"))):
+        if stripped.startswith(keywords):
+            # a continuation header: parse it together with a matching opener
+            try:
+                module = ast.parse(opener + stripped + "\n    pass")
+                return ast.unparse(module.body[0]).split("\n")[2]
+            except (SyntaxError, IndexError, ValueError):
+                return line
     try:
         module = ast.parse(line)
     except SyntaxError:
@@ -1708,7 +1717,7 @@ RE_FOR_RANGE      = re.compile(
     r"^\s*for\s+([A-Za-z_]\w*)\s+in\s+range\((.*)\)\s*:\s*$"
 )
 RE_IF             = re.compile(r"^\s*if\s+(.+?)\s*:\s*$")
-RE_ELIF           = re.compile(r"^\s*elif\b\s*(.+?)\s*:\s*$")
+RE_ELIF           = re.compile(r"^\s*elif\b\s*(.*\S)\s*:\s*$")
 RE_ELSE           = re.compile(r"^\s*else\s*:\s*$")
 RE_TRY            = re.compile(r"^\s*try\s*:\s*$")
 RE_EXCEPT         = re.compile(
@@ -2921,7 +2930,7 @@ def _parse_simple_lines(
             j = next_idx
             while j < len(snippet):
                 probe_raw = snippet[j]
-                probe_text = _strip_inline_comment(probe_raw).strip()
+                probe_text = _normalise_line(_strip_inline_comment(probe_raw).strip())
                 if not probe_text:
                     j += 1
                     continue
@@ -3044,7 +3053,7 @@ def _parse_simple_lines(
 
             while j < len(snippet):
                 probe_raw = snippet[j]
-                probe_text = _strip_inline_comment(probe_raw).strip()
+                probe_text = _normalise_line(_strip_inline_comment(probe_raw).strip())
                 if not probe_text:
                     j += 1
                     continue
